@@ -115,6 +115,89 @@ func nonlinear(t *Term) bool {
 	return false
 }
 
+// abstractNL: nonlinear products and quotients become applications of uninterpreted functions (umul_*, udiv_*), so a
+// goal that only needs "equal operands give equal products" is decided by congruence instead of nonlinear arithmetic.
+// Real multiplication/division is one interpretation of the uninterpreted symbols, so unsat carries over (sound).
+func abstractNL(t *Term, memo map[*Term]*Term) *Term {
+	if r, ok := memo[t]; ok {
+		return r
+	}
+	lit := func(x *Term) bool {
+		return x.Op == "int" || x.Op == "real" || (x.Op == "to_real" && len(x.Args) == 1 && (x.Args[0].Op == "int"))
+	}
+	var args []*Term
+	changed := false
+	for _, a := range t.Args {
+		b := abstractNL(a, memo)
+		if b != a {
+			changed = true
+		}
+		args = append(args, b)
+	}
+	var pats [][]*Term
+	for _, p := range t.Pats {
+		var q []*Term
+		for _, x := range p {
+			y := abstractNL(x, memo)
+			if y != x {
+				changed = true
+			}
+			q = append(q, y)
+		}
+		pats = append(pats, q)
+	}
+	r := t
+	tag := "Real"
+	if t.Sort == SInt {
+		tag = "Int"
+	}
+	switch {
+	case t.Op == "*" && len(args) == 2 && !lit(args[0]) && !lit(args[1]):
+		a, b := args[0], args[1]
+		if a.String() > b.String() { // commutativity by canonical argument order
+			a, b = b, a
+		}
+		r = mkApp("umul_"+tag, t.Sort, a, b)
+	case t.Op == "/" && len(args) == 2 && !lit(args[1]):
+		r = mkApp("udiv_"+tag, t.Sort, args[0], args[1])
+	case changed:
+		c := *t
+		c.Args = args
+		c.Pats = pats
+		c.str = ""
+		r = &c
+	}
+	memo[t] = r
+	return r
+}
+
+// smtFileAbstractNL: the sliced problem with nonlinear operations abstracted; "" when there are none
+func smtFileAbstractNL(o *Obligation) string {
+	memo := map[*Term]*Term{}
+	hyps := sliceHyps(o.Hyps, o.Goal)
+	any := false
+	var h2 []*Term
+	for _, h := range hyps {
+		a := abstractNL(h, memo)
+		if a != h {
+			any = true
+		}
+		h2 = append(h2, a)
+	}
+	g := abstractNL(o.Goal, memo)
+	if g != o.Goal {
+		any = true
+	}
+	if !any {
+		return ""
+	}
+	o2 := *o
+	o2.Hyps = h2
+	o2.Goal = g
+	o2.anl = true
+	return smtFileQ(&o2, false, false)
+}
+
 // smtFileLinear: the sliced problem without the hypotheses that need nonlinear arithmetic. Fewer hypotheses, so
 // unsat is sound; it keeps index/bookkeeping goals away from the nonlinear solver. "" when there is nothing to drop.
 func smtFileLinear(o *Obligation) string {
@@ -175,6 +258,18 @@ func smtFileQ(o *Obligation, slice bool, dropQuant bool) string {
 	for _, l := range usedLemmaFuncs(hyps, o.Goal) {
 		addDep(l)
 	}
+	// nonlinear-abstracted rendering: the defining axioms of derived streams are abstracted the same way
+	anlAx := map[string]*Term{}
+	if o.anl {
+		memo := map[*Term]*Term{}
+		for n := range need {
+			if p := prelude[n]; p.Ax != nil {
+				a := abstractNL(p.Ax, memo)
+				anlAx[n] = a
+				st.walk(a)
+			}
+		}
+	}
 	var sb strings.Builder
 	sb.WriteString("(set-option :produce-models true)\n(set-logic ALL)\n")
 	fmt.Fprintf(&sb, "; obligation %s\n; %s\n", o.Name, o.Where)
@@ -226,7 +321,18 @@ func smtFileQ(o *Obligation, slice bool, dropQuant bool) string {
 		return pn[i] < pn[j]
 	})
 	for _, n := range pn {
+		if a, ok := anlAx[n]; ok {
+			sb.WriteString(prelude[n].Decl + "\n(assert " + a.String() + ")\n")
+			continue
+		}
 		sb.WriteString(strings.TrimSpace(prelude[n].SMT) + "\n")
+	}
+	if o.anl {
+		for _, tg := range []string{"Real", "Int"} {
+			if _, ok := st.funcs["umul_"+tg]; ok {
+				fmt.Fprintf(&sb, "(assert (forall ((a %s) (b %s)) (! (= (umul_%s a b) (umul_%s b a)) :pattern ((umul_%s a b)))))\n", tg, tg, tg, tg, tg)
+			}
+		}
 	}
 	for _, h := range hyps {
 		fmt.Fprintf(&sb, "(assert %s)\n", h.String())
@@ -351,6 +457,14 @@ func discharge(o *Obligation, dir string, timeout time.Duration, idx int) {
 			return
 		}
 	}
+	if o.smtANL != "" && o.Kind != "cover" {
+		fa := fname + ".anl.smt2"
+		os.WriteFile(fa, []byte(o.smtANL), 0o644)
+		if r := runSolver(context.Background(), "z3-new", fa, 4*time.Second); r.result == "unsat" {
+			o.Result, o.Solver, o.Time = "unsat", "z3-new(nl-abstracted)", time.Since(t0).Seconds()
+			return
+		}
+	}
 	quick := runSolver(context.Background(), "z3-new", fname, 3*time.Second)
 	if quick.result == "unsat" || quick.result == "sat" {
 		o.Result, o.Solver, o.Time = quick.result, quick.solver, quick.secs
@@ -467,6 +581,7 @@ func dischargeAll(obls []*Obligation, dir string, timeout time.Duration, par int
 		}
 		if o.Kind != "cover" {
 			o.smtLin = smtFileLinear(o)
+			o.smtANL = smtFileAbstractNL(o)
 		}
 	}
 	var wg sync.WaitGroup
